@@ -114,6 +114,22 @@ def check_translation(case, r: R):
     for e in exp['branches']:
         if e['id'] in by_id:
             compare_branch(r, comps[e['id']], e, by_id[e['id']])
+    # the same Circuit object transformed again at the same w with another resolution (a result remembered per object
+    # or per frequency would be stale now)
+    for res2 in (w_res * 1e3, w_res * 1e-3):
+        try:
+            exp2 = cc.network_of(spec, w, res2)
+        except cc.Boundary:
+            continue
+        with r.lib('transform_circuit[second resolution]'):
+            net2 = transform_circuit(circuit, w, res2)
+            by2 = {b.id: b for b in net2.branches}
+            for e in exp2['branches']:
+                if e['id'] in by2:
+                    sub = R()
+                    compare_branch(sub, comps[e['id']], e, by2[e['id']])
+                    for s_, d_ in sub.failures:
+                        r.fail('second-resolution:' + s_, d_)
     # transform(circuit, [w...])[k] is transform_circuit(circuit, w_k)
     ws = case.get('w_list') or [w]
     with r.lib('transform'):
